@@ -115,6 +115,31 @@ def main():
             got = ([str(t) for t in lr.source_tables], [str(t) for t in lr.target_tables])
             if got != ([prefix + "mytab"], [prefix + "MyTab"]):
                 bad("quoted_identifiers_are_stripped_not_folded", dialect=dialect, written=prefix + q, got=got)
+    # three-part names with quoted LOWER-case parts (so the known double normalisation of qualifiers cannot interfere): quotes
+    # are lost part by part, wherever the name occurs
+    for dialect, (l, r_) in (("ansi", ('"', '"')), ("mysql", ("`", "`")), ("tsql", ("[", "]"))):
+        for parts in (("db", "sch", "tab"),):
+            for quoted_idx in ((0,), (1,), (0, 1), (0, 1, 2)):
+                evals += 1
+                name = ".".join((l + p_ + r_) if i in quoted_idx else p_ for i, p_ in enumerate(parts))
+                lr = LineageRunner(f"insert into {name} select a from src; insert into fin select a from {name}", dialect=dialect)
+                got = [str(t) for t in lr.intermediate_tables]
+                if got != ["db.sch.tab"]:
+                    bad("a_dotted_name_loses_only_its_quotes_part_by_part", dialect=dialect, written=name, got=got)
+    # a quoted mixed-case ALIAS keeps its case wherever it is used: as alias of a table / derived table / CTE reference and as
+    # qualifier of a column reference, it denotes the same relation
+    for dialect, q in (("ansi", '"Xy"'), ("mysql", "`Xy`"), ("tsql", "[Xy]")):
+        for frm, want in ((f"tab as {q}", "<default>.tab.a"), (f"(select a from tab) as {q}", "<default>.tab.a"), (f"tab {q} join other o on o.id = {q}.id", "<default>.tab.a")):
+            evals += 1
+            lr = LineageRunner(f"insert into tgt select {q}.a from {frm}", dialect=dialect)
+            ends = {(str(p[0]), str(p[-1])) for p in lr.get_column_lineage()}
+            if (want, "<default>.tgt.a") not in ends or len(ends) != 1:
+                bad("an_alias_spelled_the_same_way_denotes_the_same_relation", dialect=dialect, sql=f"insert into tgt select {q}.a from {frm}", got=sorted(ends))
+        evals += 1
+        lr = LineageRunner(f"insert into tgt with c as (select a from tab) select {q}.a from c as {q}", dialect=dialect)
+        ends = {(str(p[0]), str(p[-1])) for p in lr.get_column_lineage()}
+        if ("<default>.tab.a", "<default>.tgt.a") not in ends or len(ends) != 1:
+            bad("an_alias_spelled_the_same_way_denotes_the_same_relation", dialect=dialect, sql="cte reference with quoted alias", got=sorted(ends))
     # equality and hashing agree for the same text in different letter case / quoting (list and set membership coincide)
     for x, y in [(Table('"MyTab"'), Table("mytab")), (Table('s."MyTab"'), Table("s.mytab")), (Column('"Ab"'), Column("ab"))]:
         evals += 1
